@@ -53,6 +53,10 @@ FAMILIES = [
 FAMILY_FIELDS = {'F-byte': ['F-high-bits', 'PC', 'mem'], 'prefixed-return-length': ['len', 'PC'], 'JP-indirect': ['PC'], 'regpair-arith': ['BA', 'I', 'X', 'Y', 'U', 'S', 'FC', 'FZ'], 'ADC-SBC-carry': ['FC'], 'ADCL-SBCL': ['FC', 'FZ', 'mem'], 'MVL-ext': ['I', 'X', 'Y', 'U', 'S', 'mem'], 'EX-prefixed': ['I', 'mem'], 'BCD': ['FC', 'FZ', 'I', 'mem'], 'MVL-int': ['I', 'X', 'Y', 'U', 'S', 'mem'], 'CMPW-CMPP': ['FC', 'FZ'], 'MV-emem-reg-store': ['X', 'Y', 'U', 'S', 'mem'], 'decimal-shift': ['FZ', 'I', 'mem'], 'RESET-vector': ['PC']}
 
 
+# families whose divergence always includes a specific field get an exact pattern instead of 'any subset'
+FAMILY_PATTERNS = {"prefixed-return-length": "re:(?:PC,)?len"}
+
+
 def family(op: str):
     for name, ops, text in FAMILIES:
         if op in ops:
@@ -105,6 +109,7 @@ def main(argv):
         if not seen <= allowed:
             print(f"NOTE family {name}: observed fields outside the family's own result fields: {sorted(seen - allowed)}")
         fl, pat = pattern(allowed)
+        pat = FAMILY_PATTERNS.get(name, pat)
         ex = next((examples[w] for w in ws if w in examples), None)
         entries.append({
             "id": f"C06-{name}", "property": "C06", "status": "open",
